@@ -32,7 +32,7 @@ PROPERTY = 'C08'
 PREFIXES = ['', 'r', 'R', 'u', 'U']
 MENU = ['', 'Example:', 'Args:', '    x (int): prose', 'prose text', '    >>> a = 1', '    >>> print(a)', '    1', '>>> b = 2', 'Ignore:', 'Script:', '    2']
 BOUNDS = {'quick': 'docstring_start: literal of 1..2 lines, indent 0 or 4, texts <=1 char; freeform_offset: 4 elements with unbounded line counts; offsets_real: 3 lines from a menu of %d; failure_offset: as C09 quick' % len(MENU),
-          'thorough': 'docstring_start: 1..3 lines, texts <=2; freeform_offset: 5 elements; offsets_real: 5 lines'}
+          'thorough': 'docstring_start: 1..3 lines, texts <=2; freeform_offset: 5 elements; offsets_real: 4 lines'}
 OUTSIDE = ('text -> AST (CPython parser: end_lineno of the docstring node is an input here); docstrings whose value has a different number of newlines than the literal has lines '
            '(escapes like \\\\n in a non-raw docstring, backslash continuations); decorators / _workaround_func_lineno')
 ASSUMPTIONS = ['the number of newline characters in the docstring value equals the number of line breaks inside the literal (raw or escape-free docstring)',
@@ -47,8 +47,8 @@ def jobs(tier):
              'bounds': 'literal of 1..%d lines, indent 0 or 4, prefix in %r, both quote styles, texts <=%d chars over {a, space, #, both quote characters}' % (2 if q else 3, PREFIXES, 1 if q else 2)},
             {'ob': 'freeform_offset', 'harness': 'free', 'n': 4 if q else 5, 'splits': [3, 6, 9], 'query_timeout_s': 60,
              'bounds': '%d elements; want and text line counts unbounded integers, 1..2 source lines per part' % (4 if q else 5)},
-            {'ob': 'offsets_real', 'harness': 'real', 'k': 3 if q else 5, 'splits': [2, 4, 6, 8], 'query_timeout_s': 60,
-             'bounds': '%d lines from a menu of %d, styles auto/google/freeform' % (3 if q else 5, len(MENU))},
+            {'ob': 'offsets_real', 'harness': 'real', 'k': 3 if q else 4, 'splits': [2, 4, 6, 8], 'query_timeout_s': 60,
+             'bounds': '%d lines from a menu of %d, styles auto/google/freeform' % (3 if q else 4, len(MENU))},
             dict(j9, ob='failure_offset', harness='fail')]
 
 
